@@ -10,6 +10,7 @@ import NdnModel.Sha256
        `k:s:<code|~>:<0|1 body>:<0|1 sigOk>`        ControlResponse reply
        `k:g:<0|1 sigOk>` `k:n` `k:t` `k:x`          undecodable Data / Nack / timeout / canceled
        `o:<pfx>|<pfx>…` (`o:` = no routes)          connection established, starting_task runs
+       `dn`                                         the connection is lost
        `f:<i>:<reply token without the leading k:>`  answer to the i-th command in flight outside the lock
                                                     (only `v1u`, the unchanged legacy front-end, has any)
     answer: `ok <out> … #<ticks used>,<sleeps used>,<signs used>,<posts used>,<last>`
@@ -59,6 +60,7 @@ def parseEv (s : String) : Option Ev :=
   | ["k", "n"] => some (.reply .nack)
   | ["k", "t"] => some (.reply .timeout)
   | ["k", "x"] => some (.reply .canceled)
+  | ["dn"] => some .down
   | ["o", ps] => if ps == "" then some (.connect []) else ((ps.splitOn "|").mapM String.toNat?).map .connect
   | _ => none
 
@@ -78,6 +80,7 @@ def parseWEv (s : String) : Option WEv :=
   | ["k", "n"] => some .nack
   | ["k", "t"] => some .timeout
   | ["k", "x"] => some .canceled
+  | ["dn"] => some .down
   | ["o", ps] => if ps == "" then some (.connect []) else ((ps.splitOn "|").mapM String.toNat?).map .connect
   | _ => none
 
